@@ -85,6 +85,11 @@ DEFAULTS = {"int": "77", "float": "7.5", "str": "'dflt'", "bool": "False", "List
 SHAPES = ["req", "default", "optional", "alias", "aliasfrom", "noin", "noout", "moder", "modew", "dep"]
 
 
+# properties whose setter takes one type and whose getter publishes another: (name, setter type, getter type, getter expression, inputs)
+PROPS = [("size", "List[int]", "int", "len(v)", [[1, 2, 3], []]), ("code", "int", "str", "'#%d' % v", [5, "6"]),
+         ("flag", "str", "bool", "bool(v)", ["x", ""]), ("tags", "str", "List[str]", "v.split(',')", ["a,b", "c"])]
+
+
 def gen_class(rng, n):
     nf = rng.randint(1, 4)
     fields = []
@@ -124,7 +129,13 @@ def gen_class(rng, n):
             f["dep"] = other["att"]
             kw.append("required=False, dependencies=[%r]" % other["att"])
         lines.append("    %s: %s = Field(%s)" % (f["att"], f["ann"], ", ".join(kw)))
-    return {"fields": fields, "mode": mode, "addition": addition, "src": "\n".join(lines) + "\n"}
+    props = []
+    if rng.random() < 0.35:
+        name, st, gt, expr, vals = rng.choice(PROPS)
+        props.append((name, vals))
+        lines += ["    @property", "    def %s(self) -> %s:" % (name, gt), "        return self._%s" % name,
+                  "    @%s.setter" % name, "    def %s(self, v: %s):" % (name, st), "        self._%s = %s" % (name, expr)]
+    return {"fields": fields, "props": props, "mode": mode, "addition": addition, "src": "\n".join(lines) + "\n"}
 
 
 def base_input(rng, decl, skip=None):
@@ -133,6 +144,8 @@ def base_input(rng, decl, skip=None):
         if f is skip:
             continue
         data[f["out"]] = rng.choice(TYPES[f["ann"]])
+    for name, vals in decl.get("props", []):
+        data[name] = rng.choice(vals)
     return data
 
 
@@ -245,7 +258,7 @@ def main():
         except Exception as e:
             ck.count("not_judged: declaration or generation refused (%s)" % type(e).__name__)
             continue
-        tag = "mode=%s,addition=%s|%s" % (decl["mode"], decl["addition"], "+".join("%s:%s" % (f["shape"], f["ann"]) for f in decl["fields"]))
+        tag = "mode=%s,addition=%s|%s" % (decl["mode"], decl["addition"], "+".join(["%s:%s" % (f["shape"], f["ann"]) for f in decl["fields"]] + ["prop:%s" % n for n, _ in decl["props"]]))
         # ---- probes of the parser (input view) --------------------------------------------------------------------------
         accepted, required = [], []
         probe_ok = True
@@ -266,6 +279,23 @@ def main():
             except AbsenceError as e:
                 if getattr(e, "item", None) in (f["out"], f["att"]):
                     required.append(f["out"])
+            except Exception:
+                pass
+        for name, vals in decl["props"]:
+            # a property with a setter takes input (its getter publishes the stored value)
+            try:
+                inst = T(**dict(base_input(rng, decl), **{name: vals[0]}))
+                if hasattr(inst, "_" + name):
+                    accepted.append(name)
+            except Exception:
+                probe_ok = False
+            data = base_input(rng, decl)
+            data.pop(name)
+            try:
+                T(**data)
+            except AbsenceError as e:
+                if getattr(e, "item", None) == name:
+                    required.append(name)
             except Exception:
                 pass
         try:
@@ -329,7 +359,7 @@ def main():
         ck.violation(key, t[2], r)
     ck.rule = ("classes = 1-4 fields over 29 JSON-expressible annotations (builtins, Optional, generics, tuples, sets, constrained types, pattern, "
                "Literal, Enum, unions, Decimal incl. values at +-2^53, dates, nested classes) x 10 field shapes (required, default, optional, alias, "
-               "alias_from, no_input, no_output, mode r / w, dependencies) x class mode {None,r,w,a} x addition {None,True,False,int}; per class: both "
+               "alias_from, no_input, no_output, mode r / w, dependencies), optionally a property whose setter and getter types differ, x class mode {None,r,w,a} x addition {None,True,False,int}; per class: both "
                "documents, probes of every field and of an unknown key, 4-6 parsed-and-encoded outputs; distinct_nontrivial = distinct (record kind, view, class shape)")
     ck.trusted = ["TLC 1.8", "harness/jsonv.py (JSON -> records, Python re.search as regex oracle, $ref inlining)",
                   "spec/JsonSchema.tla cross-checked against the jsonschema package on 1672 (schema, instance) pairs (tools/xcheck_jsonschema.py)"]
